@@ -48,6 +48,7 @@ func (s *Scheduler) Schedule(g *scheduler.ExecutionGraph) error {
 	)
 
 	for !s.isDone(g) {
+		s.verifGate()
 		if atomic.LoadInt32(&s.cancelled) == 1 {
 			break
 		}
